@@ -7,3 +7,4 @@ import LettreVerif.Props.C06
 #print axioms LV.C06.opportunistic_iff_offered
 #print axioms LV.C06.none_never_upgrades
 #print axioms LV.C06.switch_table
+#print axioms LV.C06.trust_anchors
